@@ -143,6 +143,10 @@ def module_text(ir, k, nstmts=None):
     out.append("fn clock() { return %d; }" % (5000 + k))
     out.append("var Range = %d;" % (6000 + k))
     out.append("fn shadowed() { return (clock(), Range); }")
+    if k % 2 == 1:
+        # plain assignment (no `var`) to a built-in name: only this module's own binding changes
+        out.append("BuiltInMethod = %d;" % (7000 + k))
+    out.append("fn assigned() { return BuiltInMethod; }")
     # module globals that hold a bound native method / a bound method / a class: `m.name(...)` must call them like any other value
     out.append("var store = [0]; var pushit = store.push;")
     out.append("#[constructor(new)] class Acc { fn add(self, x) { self.n = self.n + x; return self.n; } } var acc0 = Acc.new(); acc0.n = 0; var addit = acc0.add;")
@@ -156,7 +160,7 @@ def module_text(ir, k, nstmts=None):
     out.append('fn builtins() { return (type(1) == Num, [1, 2].len(), "ab".len(), [Fiber, Vec, HashMap, Tuple].len()); }')
     # every built-in class by name (clock and Range are rebound above on purpose), and the built-in functions
     out.append('fn builtin_classes() { return %s; }' % BUILTIN_CLASSES)
-    out.append('fn builtin_fns() { return (type(type) == BuiltIn, type(print) == BuiltIn, type(builtin_fns) == Func, type([].push) == BuiltInMethod, type(acc0.add) == Method); }')
+    out.append('fn builtin_fns() { return (type(type) == BuiltIn, type(print) == BuiltIn, type(builtin_fns) == Func, type([].push) == type([].pop), type(acc0.add) == Method); }')
     if m["lazy"] is not None:
         t = ir["mods"][m["lazy"]]
         out.append('fn lazy() { import "%s"; return %s.getg(); }' % (t["path"], t["bind"]))
@@ -219,6 +223,8 @@ def render(ir):
         e('fn finload%d() { import "pl%d"; print(("ev", "fin-imp", %d, pl%d.getg())); }' % (i, i, i, i))
         e('fn finimp%d() { try { import "nope/missing%d"; } finally { finload%d(); } return "fell-through"; }' % (i, i, i))
     e("var finimps = [finimp0, finimp1];")
+    # three different files whose paths differ only in leading `../` components are three different modules
+    e('fn pathmods() { import "px"; import "../px" as pxu; import "../../px" as pxuu; px.gv = px.gv + 1; return (px.gv, pxu.gv, pxuu.gv, px == pxu, pxu == pxuu); }')
     e("var auxset = [%s];" % ", ".join("|m, x| { var b = m.getaux(); m.aux%d = x; return (b, m.getaux(), m.aux%d); }" % (k, k) for k in range(n)))
     e("var imps = [%s];" % ", ".join("imp%d" % k for k in range(n)))
     e("var mods = [%s];" % ", ".join("nil" for _ in range(n)))
@@ -249,11 +255,13 @@ def render(ir):
     e('    if type(r) == String { print(("ev", "fib", k, r)); } else { print(("ev", "fib", k, r != nil)); record(k, r); }')
     e("  } else if a == 8 {")
     e("    if mods[k] != nil {")
-    e('      print(("ev", "iso", k, mods[k].peek(), mods[k].builtins(), mods[k].own, mods[k].peek_class(), mods[k].peek_fn(), mods[k].shadowed(), mods[k].pushit(7).len(), mods[k].addit(2), mods[k].Acc.new() != nil, same_builtins(mods[k].builtin_classes()), mods[k].builtin_fns()));')
+    e('      print(("ev", "iso", k, mods[k].peek(), mods[k].builtins(), mods[k].own, mods[k].peek_class(), mods[k].peek_fn(), mods[k].shadowed(), mods[k].pushit(7).len(), mods[k].addit(2), mods[k].Acc.new() != nil, same_builtins(mods[k].builtin_classes()), mods[k].builtin_fns(), mods[k].assigned() == BuiltInMethod, mods[k].assigned() == 7000 + k));')
     e('      try { mods[k].MainOnlyClass; print(("ev", "attr-leak", k)); } catch e { print(("ev", "attr2", k, type(e))); }')
     e('      try { mods[k].no_such_attribute; } catch e { print(("ev", "attr", k, type(e))); }')
     e('      try { print(("ev", "leak", own)); } catch e { print(("ev", "noleak", type(e))); }')
     e('    } else { print(("ev", "skip")); }')
+    e("  } else if a == 10 && v % 3 == 0 {")
+    e('    print(("ev", "pathmods", pathmods()));')
     e("  } else if a == 10 {")
     e('    var r = "none"; try { r = finimps[v % 2](); } catch e { r = type(e); } print(("ev", "finimp", v % 2, r));')
     e("  } else {")
@@ -280,6 +288,8 @@ def fs_of(ir):
             else:
                 reads.append("ok")
         fs[m["path"]] = {"source": module_text(ir, k), "reads": reads}
+    for tag, path in enumerate(["px", "../px", "../../px"]):
+        fs[path] = {"source": 'var gv = %d; print(("ev", "load-px", %d));\n' % (500 + tag, tag), "reads": []}
     for i in range(2):
         fs["pl%d" % i] = {"source": 'var gv = %d; fn getg() { return gv; } print(("ev", "load-pl", %d));\n' % (77 + i, i), "reads": []}
     return fs
@@ -320,6 +330,8 @@ def model(ir, tape, faults, chooser=None):
     fibs = [None] * n             # None | generator (suspended) | "done"
     pl_loaded = [False, False]
     aux = [k_ * 3 for k_ in range(n)]
+    px_loaded = [False]
+    px_gv = [500]
 
     def pick(m, purpose=None):
         if chooser is not None:
@@ -499,12 +511,21 @@ def model(ir, tape, faults, chooser=None):
                     isos[k] += 1
                     ev.append([s("iso"), num(k), cls("NameError"), tup(b(True), num(2), num(2), num(4)), num(k),
                                cls("NameError"), cls("NameError"), tup(num(5000 + k), num(6000 + k)),
-                               num(1 + isos[k]), num(2 * isos[k]), b(True), num(1717), tup(b(True), b(True), b(True), b(True), b(True))])
+                               num(1 + isos[k]), num(2 * isos[k]), b(True), num(1717 if k % 2 == 0 else 1617), tup(b(True), b(True), b(True), b(True), b(True)),
+                               b(k % 2 == 0), b(k % 2 == 1)])
                     ev.append([s("attr2"), num(k), cls("AttributeError")])
                     ev.append([s("attr"), num(k), cls("AttributeError")])
                     ev.append([s("noleak"), cls("NameError")])
                 else:
                     ev.append([s("skip")])
+            elif a == 10 and v % 3 == 0:
+                if not px_loaded[0]:
+                    px_loaded[0] = True
+                    for tag in (0, 1, 2):
+                        ev.append([s("load-px"), num(tag)])
+                px_gv[0] += 1
+                probes.inc("modules_differing_only_in_parent_directory_prefix")
+                ev.append([s("pathmods"), tup(num(px_gv[0]), num(501), num(502), b(False), b(False))])
             elif a == 10:
                 i = v % 2
                 if not pl_loaded[i]:
